@@ -58,6 +58,13 @@ def chain_cases(rng, n):
                        subs=[dict(cid=1, filt=a, script=[dict(op='send', if_pgn=0xD100, once='m2', a=m2)])], cas=[]),
                   dict(dll='j1939-21', max_cmdt=rng.choice([1, 2, 255]),
                        subs=[dict(cid=2, filt=b, script=[dict(op='send', if_pgn=0xD000, once='reply', a=[0, 0xD1, a, 6, b, [1, 2, 3, k % 256]])])], cas=[])]
+        if k % 2:
+            # ... and from the report of the peer's end-of-message acknowledgement (it arrives inside the job thread's call that
+            # hands over the last data packet) the application submits a long message to a THIRD node: a new send session
+            # comes into being while the job pass is walking over the send sessions
+            c = 0x31
+            stacks[0]['subs'][0]['script'].append(dict(op='send', if_pgn=0xD000, once='m4', a=[0, 0xD4, c, 6, a, dict(seed=rng.getrandbits(20), len=rng.choice([9, 33, 40]))]))
+            stacks.append(dict(dll='j1939-21', max_cmdt=rng.choice([1, 4, 255]), subs=[dict(cid=3, filt=c, script=[])], cas=[]))
         script = [dict(t=1000, s=0, op='send', a=[0, 0xD0, b, 6, a, dict(seed=rng.getrandbits(20), len=n1)])]
         script += [dict(t=1000 + d, s=0, op='send', a=m3) for d in rng.sample([300, 1000, 3000, 20000, 60000, 200000], 3)]
         yield dict(stacks=stacks, lat=[0], jit=[1], script=sorted(script, key=lambda e: e['t']), horizon=4_000_000,
